@@ -472,3 +472,131 @@ func H06e_deep_subscription() {
 	vrtAssert("C06.deep_lookup_ok", mt.Subscribers(T, 2, &subs, &qoss) == nil)
 	vrtAssert("C06.deep_gone_after_unsubscribe", len(subs) == m2)
 }
+
+// H06f_branches: three or four subscriptions whose filters share levels, so that several branches of the
+// trie stay alive side by side while a three-level topic is matched (round-8 change C06-15: a matcher
+// that keeps the live branches in a fixed-size frontier is right for one or two of them). Filters are
+// a subset of eleven shapes over the literals a / b / c, '+' and a trailing '#'; the topic's levels
+// are symbolic bytes, so the solver decides which literals they equal.
+func H06f_branches() {
+	shapes := []string{"a/b/c", "+/b/c", "a/+/c", "a/b/+", "+/+/c", "+/b/+", "a/+/+", "+/+/+", "a/b/#", "a/#", "+/+/#"}
+	MaxQosAllowed = 2
+	mt := NewMemProvider()
+	type sub struct{ x int }
+	var subsv []*sub
+	var filters [][]byte
+	for i, s := range shapes {
+		if vrtBool("with." + s) {
+			su := &sub{i}
+			subsv = append(subsv, su)
+			filters = append(filters, []byte(s))
+			if len(filters) > 4 {
+				return
+			}
+		}
+	}
+	if len(filters) < 3 {
+		return
+	}
+	for i, f := range filters {
+		q, err := mt.Subscribe(f, byte(i%3), subsv[i])
+		vrtAssert("C06.branches_subscribe_ok", vrtAnd(err == nil, q == byte(i%3)))
+	}
+	nl := 2 + vrtChoice("W.levels", 2)
+	var T []byte
+	for i := 0; i < nl; i++ {
+		if i > 0 {
+			T = append(T, '/')
+		}
+		c := vrtByte("W.lit")
+		vrtAssume(vrtAnd(vrtAnd(c != '/', c != '+'), vrtAnd(c != '#', c != '$')))
+		T = append(T, c)
+	}
+	subs, qoss, err := vrtSubscribers(mt, T, 2)
+	vrtAssert("C06.branches_lookup_ok", err == nil)
+	want := 0
+	for i, f := range filters {
+		m := vrtConcretize(vrtIteInt(specMatch(f, T), 1, 0))
+		got := 0
+		for k, x := range subs {
+			if x == interface{}(subsv[i]) {
+				got++
+				vrtAssert("C06.branches_qos", qoss[k] == byte(i%3))
+			}
+		}
+		vrtAssert("C06.branches_exactly_the_matching", got == m)
+		want += m
+	}
+	vrtAssert("C06.branches_count", len(subs) == want)
+	if want >= 3 {
+		vrtReach("C06.three_branches_match")
+	}
+	vrtReach("C06.branches")
+}
+
+// H06f_wide_node: a node with eleven children (nine literal levels, '+' and '#'), at the root or one
+// level down, and a topic whose level at that node is symbolic - possibly one of the nine, possibly
+// EMPTY (round-8 change C01-15: a by-key lookup for nodes with many children that probes '+' and the
+// level itself reports the '+' child twice for an empty level, which the splitter hands over as "+").
+// None of the filters has an empty level and the topic has no trailing one, so section 4.7 and the
+// library's known treatment of empty levels (C06 known finding) agree on every pair used here: an empty
+// level is matched by '+' and '#' and by no literal.
+func H06f_wide_node() {
+	MaxQosAllowed = 2
+	mt := NewMemProvider()
+	type sub struct{ x int }
+	prefix := ""
+	if vrtBool("one_level_down") {
+		prefix = "r/"
+	}
+	var filters [][]byte
+	var subsv []*sub
+	add := func(f string) {
+		su := &sub{len(subsv)}
+		_, err := mt.Subscribe([]byte(prefix+f), 1, su)
+		vrtAssert("C06.wide_subscribe_ok", err == nil)
+		filters = append(filters, []byte(prefix+f))
+		subsv = append(subsv, su)
+	}
+	for i := 0; i < 9; i++ {
+		add("k" + string(rune('0'+i)))
+	}
+	add("+")
+	add("+/z")
+	if vrtBool("with_hash") {
+		add("#")
+	}
+	// the topic: prefix, then a level that is empty or two symbolic bytes, then optionally "/z"
+	W := []byte(prefix)
+	if !vrtBool("W.empty_level") {
+		c0, c1 := vrtByte("W.c0"), vrtByte("W.c1")
+		for _, c := range []byte{c0, c1} {
+			vrtAssume(vrtAnd(vrtAnd(c != '/', c != '+'), vrtAnd(c != '#', c != '$')))
+		}
+		W = append(W, c0, c1)
+	}
+	if vrtBool("W.deeper") {
+		W = append(W, '/', 'z')
+	}
+	if len(W) == 0 || W[len(W)-1] == '/' {
+		return // no name at all / a trailing empty level: outside this harness
+	}
+	subs, qoss, err := vrtSubscribers(mt, W, 2)
+	vrtAssert("C06.wide_lookup_ok", err == nil)
+	want := 0
+	for i, f := range filters {
+		m := vrtConcretize(vrtIteInt(specMatch(f, W), 1, 0))
+		got := 0
+		for k, x := range subs {
+			if x == interface{}(subsv[i]) {
+				got++
+				vrtAssert("C06.wide_qos", qoss[k] == 1)
+			}
+		}
+		vrtAssert("C06.wide_at_most_once", got <= 1)
+		vrtAssert("C06.wide_exactly_the_matching", got == m)
+		want += m
+	}
+	vrtAssert("C06.wide_count", len(subs) == want)
+	vrtReach("C06.wide")
+}
